@@ -104,11 +104,18 @@ def prop_module(prop_id: str):
     return importlib.import_module(f"sa.props.{prop_id}")
 
 
+def make_program(prop_id: str, repo: str, overrides=None) -> Program:
+    """The program model a property is decided on: log statements are stripped
+    unless the property's module asks to keep them (KEEP_LOGGING)."""
+    keep = bool(getattr(prop_module(prop_id), "KEEP_LOGGING", False))
+    return Program(repo, overrides=overrides, strip_logging=not keep)
+
+
 def analyse(prop_id: str, repo: str, tier: str = "quick", prog: Program = None, seed: int = 0) -> Ctx:
     """Run the rules of one property against `repo`; returns the context
     (raises AnalysisError for exit-2 conditions)."""
     if prog is None:
-        prog = Program(repo)
+        prog = make_program(prop_id, repo)
     ctx = Ctx(prop_id, prog, tier, seed)
     mod = prop_module(prop_id)
     try:
